@@ -27,6 +27,23 @@ class Index(list):
     def to_list(self):
         return list(self)
 
+    def __add__(self, o):
+        if isinstance(o, (list, tuple)):
+            return Index(list(self) + list(o))
+        return Index([v + o for v in self])
+
+    def __radd__(self, o):
+        if isinstance(o, (list, tuple)):
+            return Index(list(o) + list(self))
+        return Index([o + v for v in self])
+
+    def __sub__(self, o):
+        return Index([v - o for v in self])
+
+    def __getitem__(self, k):
+        r = list.__getitem__(self, k)
+        return Index(r) if isinstance(k, slice) else r
+
     @property
     def values(self):
         return SArray(list(self))
@@ -66,7 +83,20 @@ class _StrIdx:
         return Index([v.lower() for v in self.idx])
 
 
-class Series:
+class _HasIndex:
+    @property
+    def index(self):
+        return self._index
+
+    @index.setter
+    def index(self, v):
+        v = Index(v.items if isinstance(v, SArray) else v)
+        if "_index" in self.__dict__ and len(v) != len(self._index):
+            raise ValueError("Length mismatch: Expected axis has %d elements, new values have %d elements" % (len(self._index), len(v)))
+        self._index = v
+
+
+class Series(_HasIndex):
     def __init__(self, values=None, index=None, name=None, dtype=None):
         if isinstance(values, Series):
             index = index if index is not None else values.index
@@ -439,7 +469,7 @@ class _ILoc:
         return DataFrame({c: [df._c[c][i] for i in idx] for c in cs}, [df.index[i] for i in idx], {c: df._dt[c] for c in cs}, _cols=cs)
 
 
-class DataFrame:
+class DataFrame(_HasIndex):
     def __init__(self, data=None, index=None, dtypes=None, columns=None, _cols=None):
         if isinstance(data, DataFrame):
             index = index if index is not None else data.index
@@ -713,7 +743,7 @@ class DataFrame:
         d = DataFrame({c: [v[i] for i in order] for c, v in self._c.items()},
                       None if ignore_index else [self.index[i] for i in order], self._dt)
         if inplace:
-            self._c, self.index = d._c, d.index
+            self._c, self._index = d._c, d.index
             return None
         return d
 
@@ -734,7 +764,7 @@ class DataFrame:
         keepidx.sort()
         d = DataFrame({c: [v[i] for i in keepidx] for c, v in self._c.items()}, [self.index[i] for i in keepidx], self._dt)
         if inplace:
-            self._c, self.index = d._c, d.index
+            self._c, self._index = d._c, d.index
             return None
         return d
 
